@@ -22,7 +22,7 @@ PID = "C09"
 RULE = (
     "matmul: dims (m,n,k) each with (outer, inner) from {(1,4),(1,8),(2,8),(3,8),(2,4)} (operand shape = outer*inner), all 6 orders of the outer loops, element width "
     "vectors (8,8,32),(16,16,32),(8,8,8),(32,32,32),(64,64,64); conv-like (k + 4*o_outer + o_inner) with k in 1..3; elementwise 1-D and 2-D (row and "
-    "transposed access) on the ALU template; operands with a pre-existing TSL; x tiled in {true,false}. distinct = distinct (schedule, chosen layouts); "
+    "transposed access) on the ALU template; operands with a pre-existing TSL; operands with one or two dimensions (sizes 1..3, every position) the schedule never indexes; x tiled in {true,false}. distinct = distinct (schedule, chosen layouts); "
     "non-trivial = some chosen layout is not plain row-major"
 )
 ASSUMPTIONS = ["layout semantics: machines/layout.py (addr = sum step*digit)", "the operand shape is exactly covered by the schedule's accesses except for the conv-like family (halo)"]
@@ -99,6 +99,13 @@ def space(tier):
             for w in (8, 64):
                 for tiled in (True, False):
                     cases.append(("unacc", lead, co, w, tiled))
+    # several unindexed dimensions, at every position around the indexed one, on an input or on the output
+    for sizes in itertools.product((1, 2, 3), repeat=2):
+        for pos in (0, 1, 2):
+            for which in (0, 2):
+                for w in (8, 64):
+                    for tiled in (True, False):
+                        cases.append(("unacc2", sizes, pos, which, w, tiled))
     return cases
 
 
@@ -156,6 +163,15 @@ def build(case):
         plain = [[4, 1]]
         led = [[0, 0], [4, 1]]
         return "snax_alu", [(lead, C_), (C_,), (C_,)], [w] * 3, [led, plain, plain], [co, 4], 2, tiled, None
+    if kind == "unacc2":
+        _, sizes, pos, which, w, tiled = case
+        plain = [[4, 1]]
+        shape, mat = list(sizes), [[0, 0], [0, 0]]
+        shape.insert(pos, 8)
+        mat.insert(pos, [4, 1])
+        shapes, mats = [(8,), (8,), (8,)], [plain, plain, plain]
+        shapes[which], mats[which] = tuple(shape), mat
+        return "snax_alu", shapes, [w] * 3, mats, [2, 4], 2, tiled, None
     if kind == "pre":
         _, which, tiled = case
         acc, shapes, w, mats, bounds, nin, _, _ = build(("mm", ((2, 8), (2, 8), (2, 8)), (0, 1, 2), (8, 8, 32), tiled))
